@@ -1802,15 +1802,14 @@ def evaluate__round(self: XPathFunction, context: ta.ContextType = None) \
 
     precision: int = self.get_argument(context, index=1, default=0, cls=int)
     try:
-        if precision < 0:
-            return type(arg)(round(arg, precision))  # type: ignore[call-overload, arg-type]
-
         number = decimal.Decimal(arg)
-        exponent = decimal.Decimal('1') / 10 ** precision
-        if number > 0:
-            return type(arg)(number.quantize(exponent, rounding='ROUND_HALF_UP'))
-        else:
-            return type(arg)(number.quantize(exponent, rounding='ROUND_HALF_DOWN'))
+        exponent = decimal.Decimal(1).scaleb(-precision)
+        with decimal.localcontext() as ctx:  # enough digits for quantize() on big numbers
+            ctx.prec = max(ctx.prec, number.adjusted() + abs(precision) + 3)
+            if number > 0:
+                return type(arg)(number.quantize(exponent, rounding='ROUND_HALF_UP'))
+            else:
+                return type(arg)(number.quantize(exponent, rounding='ROUND_HALF_DOWN'))
     except TypeError as err:
         if isinstance(context, XPathSchemaContext):
             return []
